@@ -142,16 +142,9 @@ def build(x):
 
 
 def mk_filter(f):
-    k = f["k"]
-    if k == "type":
-        return stix2.Filter("type", "=", f["v"])
-    if k == "id":
-        return stix2.Filter("id", "=", f["v"])
-    if k == "pay":
-        return stix2.Filter("x_pay", "=", f["v"])
-    if k == "prop":
-        return stix2.Filter(f["p"], "=", f["v"])
-    raise ValueError(k)
+    k, op = f["k"], f.get("op", "=")
+    name = {"type": "type", "id": "id", "pay": "x_pay"}.get(k) or f["p"]
+    return stix2.Filter(name, op, f["v"])
 
 
 def show_ver(v):
@@ -277,67 +270,96 @@ def run_c11(case, ctx):
     return out
 
 
-def build_src(x, ctx):
-    """Returns (object to call reads on, DataSource to attach to a composite)."""
+class Node(object):
+    """a built source: obj = what reads are called on, ds = the DataSource (attached filters, composite member),
+    adder = callable adding later content to the same underlying store (None if there is none), kids = members"""
+
+    def __init__(self, obj, ds, adder=None, kids=()):
+        self.obj, self.ds, self.adder, self.kids = obj, ds, adder, list(kids)
+
+
+def _quiet(fn):
+    def add(v):
+        try:
+            fn(v)
+        except Exception:  # noqa: BLE001 -- a refused addition leaves the store as it is (as at construction)
+            pass
+    return add
+
+
+def build_node(x, ctx):
     t = x["t"]
     af = [mk_filter(f) for f in x.get("af", [])]
     if t == "mem":
+        st = stix2.MemoryStore()
+        adder = _quiet(st.add)
         if x.get("wrap") == "store":
-            st = stix2.MemoryStore()
             for a in x["adds"]:
-                try:
-                    st.add(build(a))
-                except Exception:  # noqa: BLE001
-                    pass
+                adder(build(a))
             if af:
                 st.source.filters.add(af)
-            return st, st.source
+            return Node(st, st.source, adder)
         src = None
         try:
             src = stix2.MemorySource(stix_data=[build(a) for a in x["adds"]])
+            adder = None                     # a bare MemorySource cannot be added to
         except Exception:  # noqa: BLE001
             # partial content on failure is only reachable through a store
-            st = stix2.MemoryStore()
             for a in x["adds"]:
-                try:
-                    st.add(build(a))
-                except Exception:  # noqa: BLE001
-                    pass
+                adder(build(a))
             src = st.source
         if af:
             src.filters.add(af)
-        return src, src
+        return Node(src, src, adder)
     if t == "fs":
         root = ctx.fresh_dir()
         st = stix2.FileSystemStore(root, allow_custom=True, bundlify=bool(x.get("bundlify")))
+        adder = _quiet(st.add)
         for a in x["adds"]:
-            try:
-                st.add(build(a))
-            except Exception:  # noqa: BLE001
-                pass
+            adder(build(a))
         if x.get("wrap") == "store":
             if af:
                 st.source.filters.add(af)
-            return st, st.source
-        src = stix2.FileSystemSource(root, allow_custom=True)
+            return Node(st, st.source, adder)
+        src = stix2.FileSystemSource(root, allow_custom=True)      # a separate source object over the same directory
         if af:
             src.filters.add(af)
-        return src, src
+        return Node(src, src, adder)
     if t == "comp":
         c = stix2.CompositeDataSource()
-        for m in x["ms"]:
-            c.add_data_source(build_src(m, ctx)[1])
+        kids = [build_node(m, ctx) for m in x["ms"]]
+        for k in kids:
+            c.add_data_source(k.ds)
         if af:
             c.filters.add(af)
-        return c, c
+        return Node(c, c, None, kids)
     if t == "env":
-        store = build_src(x["store"], ctx)[0] if x.get("store") else None
-        source = build_src(x["source"], ctx)[1] if x.get("source") else None
+        kids = []
+        store = source = None
+        if x.get("store"):
+            k = build_node(x["store"], ctx)
+            kids.append(k)
+            store = k.obj
+        if x.get("source"):
+            k = build_node(x["source"], ctx)
+            kids.append(k)
+            source = k.ds
         env = stix2.Environment(store=store, source=source)
         for f in af:
             env.add_filter(f)
-        return env, env.source
+        return Node(env, env.source, None, kids)
     raise ValueError(t)
+
+
+def build_src(x, ctx):
+    n = build_node(x, ctx)
+    return n.obj, n.ds
+
+
+def node_at(n, path):
+    for i in path:
+        n = n.kids[i]
+    return n
 
 
 def nav_arg(r):
@@ -352,11 +374,22 @@ def nav_arg(r):
 
 
 def run_c18(case, ctx):
-    top, _ = build_src(case["src"], ctx)
+    """steps: reads (optionally `at` a member path), `addf` / `rmf` (attach / detach a filter at a path), `add`
+    (later content for the store under a leaf); reads yield one token each, the other steps none"""
+    root = build_node(case["src"], ctx)
     out = []
-    for r in case["reads"]:
+    for r in case.get("steps", case.get("reads", [])):
         op = r["op"]
-        if op == "get":
+        node = node_at(root, r.get("at", []))
+        top = node.obj
+        if op == "addf":
+            node.ds.filters.add(mk_filter(r["f"]))
+        elif op == "rmf":
+            node.ds.filters.remove(mk_filter(r["f"]))
+        elif op == "add":
+            if node.adder is not None:
+                node.adder(build(r["x"]))
+        elif op == "get":
             out.append(guarded(lambda: top.get(r["id"])))
         elif op == "all":
             out.append(guarded(lambda: top.all_versions(r["id"])))
